@@ -68,6 +68,9 @@ def start_bad(kind):
     """Returns (target string, server-or-None)."""
     kex = P.frame2(P.kexinit(['curve25519-sha256'], ['ssh-ed25519'], ['aes256-ctr'], ['hmac-sha2-256']))
     if kind == 'unresolvable': return 'nonexistent-host.invalid', None
+    # a target whose audit ends in an exception nobody expects (a name with an empty label cannot be IDNA-encoded: UnicodeError from the resolver call):
+    # the worker's last-resort handler turns it into an internal-error block, the other targets keep their results
+    if kind == 'internal-error': return 'bad..name', None
     if kind in ('refused-port-65535', 'refused-port-1'):     # boundary values of the legal port range (nothing listens there)
         port = int(kind.rsplit('-', 1)[1])
         s = socket.socket()
@@ -106,7 +109,7 @@ def start_bad(kind):
     return '127.0.0.1:%d' % srv.port, srv
 
 
-BAD = ['unresolvable', 'refused', 'refused-port-65535', 'refused-port-1', 'silent', 'early-close', 'bad-blocksize', 'bad-crc', 'truncated-kexinit', 'zero-payload', 'garbage-banner', 'probe-garbage', 'probe-oversized-group', 'ssh1-retry-badcrc', 'ssh1-retry-closed']
+BAD = ['unresolvable', 'refused', 'refused-port-65535', 'refused-port-1', 'silent', 'early-close', 'bad-blocksize', 'bad-crc', 'truncated-kexinit', 'zero-payload', 'garbage-banner', 'probe-garbage', 'probe-oversized-group', 'internal-error', 'ssh1-retry-badcrc', 'ssh1-retry-closed']
 
 
 def run(ctx):
@@ -132,7 +135,7 @@ def run(ctx):
         with runner.Pool(8) as pool:
             single = dict(zip(names, pool.map(lambda z, n: z.run(['-n', '--skip-rate-test', '-t', '1', targets[n]], timeout=90), names)))
             for n in names:
-                if single[n]['rc'] not in (0, 1, 2, 3):
+                if single[n]['rc'] not in ((0, 1, 2, 3) if n != 'internal-error' else (255,)):
                     ctx.violation('single-undocumented-status/' + n, 'single-target run against %s exits %r' % (n, single[n]['rc']), {'op': 'cli', 'target': n})
             lists = []
             for _ in range(28 if q else 600):
